@@ -71,6 +71,9 @@ type sched struct {
 	atYield     map[int]value // yield index -> func() to call there
 	mutexHeld   map[*value]*task
 	wgCount     map[*value]int64
+	// preemptAtLoads makes atomic loads (the VM's halt poll, i.e. every VM
+	// instruction boundary) voluntary preemption points as well
+	preemptAtLoads bool
 }
 
 func (m *Machine) sch() *sched { return m.path.sched }
@@ -241,7 +244,13 @@ func (m *Machine) yield() { m.yieldKind(true) }
 // fairness rule apply (used for atomic loads: a read publishes nothing, so a
 // voluntary preemption right before it is equivalent to one at the preceding
 // write-type synchronisation point).
-func (m *Machine) softYield() { m.yieldKind(false) }
+func (m *Machine) softYield() {
+	if m.path != nil && m.path.sched != nil && m.path.sched.preemptAtLoads {
+		m.yieldKind(true)
+		return
+	}
+	m.yieldKind(false)
+}
 
 func (m *Machine) yieldKind(mayPreempt bool) {
 	if m.path == nil || m.path.sched == nil {
